@@ -56,12 +56,16 @@ Record Inv (evs : list ev) (st : tstate) : Prop := mkInv {
 
 Lemma Inv_init : Inv [] (init_tstate rr0 sr0 fin0).
 Proof.
-  constructor; simpl; try reflexivity.
+  constructor.
+  - intros a. reflexivity.
   - intros a H. reflexivity.
-  - exists []. split; [rewrite app_nil_r; reflexivity|]. split.
+  - exists []. split; [simpl; rewrite app_nil_r; reflexivity|]. split.
     + intros r [].
     + intros a. simpl. constructor.
-  - intros a. tauto.
+  - reflexivity.
+  - reflexivity.
+  - intros a. simpl. tauto.
+  - reflexivity.
 Qed.
 
 Lemma ev_reds_snoc evs e b :
@@ -177,9 +181,9 @@ Proof.
         -- apply N.compare_eq_iff in Ecmp. contradiction.
         -- (* p < r: p becomes the kept production *)
            apply N.compare_lt_iff in Ecmp.
-           constructor; simpl.
+           constructor; cbn [t_cells t_rr t_sr t_sa t_fin t_gotos set_cells set_rr set_sa set_fin set_sr set_gotos].
            ++ intros b. unfold cell_of, upd. rewrite Haccs, Hreds. destruct (N.eqb_spec b a) as [E|E].
-              ** subst b. rewrite Eacc. rewrite N.eqb_refl. rewrite min_list_snoc, Emin. simpl.
+              ** subst b. rewrite Eacc. rewrite N.eqb_refl. rewrite min_list_snoc, Emin. cbn [minstep].
                  f_equal. lia.
               ** destruct (N.eqb_spec a b) as [E'|E']; [congruence|]. rewrite app_nil_r.
                  rewrite (Hcells b). reflexivity.
@@ -195,7 +199,7 @@ Proof.
                  rewrite Hreds. destruct Hrrinv as [_ Hperm]. specialize (Hperm b).
                  destruct (N.eqb_spec a b) as [E|E].
                  --- subst b. simpl map. unfold rr_y at 2. simpl.
-                     unfold losers. rewrite min_list_snoc, Emin. simpl.
+                     unfold losers. rewrite min_list_snoc, Emin. cbn [minstep].
                      replace (N.min r p) with p by lia.
                      rewrite filter_app. simpl. rewrite N.eqb_refl. simpl. rewrite app_nil_r.
                      rewrite filter_all.
@@ -209,9 +213,9 @@ Proof.
            ++ rewrite Haccs. exact Hfinv.
         -- (* p > r: r stays *)
            apply N.compare_gt_iff in Ecmp.
-           constructor; simpl.
+           constructor; cbn [t_cells t_rr t_sr t_sa t_fin t_gotos set_cells set_rr set_sa set_fin set_sr set_gotos].
            ++ intros b. unfold cell_of. rewrite Haccs, Hreds. destruct (N.eqb_spec a b) as [E|E].
-              ** subst b. rewrite Eacc. rewrite min_list_snoc, Emin. simpl.
+              ** subst b. rewrite Eacc. rewrite min_list_snoc, Emin. cbn [minstep].
                  rewrite (Hcells a). unfold cell_of. rewrite Eacc, Emin. f_equal. lia.
               ** rewrite app_nil_r. rewrite (Hcells b). reflexivity.
            ++ intros b Hb. rewrite Haccs in Hb. rewrite Hreds. destruct (N.eqb_spec a b) as [E|E].
@@ -226,7 +230,7 @@ Proof.
                  rewrite Hreds. destruct Hrrinv as [_ Hperm]. specialize (Hperm b).
                  destruct (N.eqb_spec a b) as [E|E].
                  --- subst b. simpl map. unfold rr_y at 2. simpl.
-                     unfold losers. rewrite min_list_snoc, Emin. simpl.
+                     unfold losers. rewrite min_list_snoc, Emin. cbn [minstep].
                      replace (N.min r p) with r by lia.
                      rewrite filter_app. simpl.
                      destruct (N.eqb_spec p r) as [E'|E']; [contradiction|]. simpl.
@@ -248,7 +252,7 @@ Proof.
         subst fin0.
         assert (Hreds : forall b, ev_reds (evs ++ [(start_prod g, eof g)]) b = ev_reds evs b).
         { intros b. rewrite ev_reds_snoc. simpl snd. rewrite Ee. rewrite andb_false_r. apply app_nil_r. }
-        constructor; simpl.
+        constructor; cbn [t_cells t_rr t_sr t_sa t_fin t_gotos set_cells set_rr set_sa set_fin set_sr set_gotos].
         -- intros b. unfold cell_of, upd. rewrite ev_acc_snoc, Hreds. simpl snd. rewrite Ee, andb_true_r.
            destruct (N.eqb_spec b (eof g)) as [E|E].
            ++ subst b. rewrite N.eqb_refl. rewrite orb_true_r. reflexivity.
@@ -269,7 +273,7 @@ Proof.
         { intros b. rewrite ev_reds_snoc. simpl. rewrite Ee. rewrite andb_true_r. reflexivity. }
         assert (Haccs : forall b, ev_acc (evs ++ [(p, a)]) b = ev_acc evs b).
         { intros b. rewrite ev_acc_snoc. simpl. rewrite Ee. rewrite andb_false_r. apply orb_false_r. }
-        constructor; simpl.
+        constructor; cbn [t_cells t_rr t_sr t_sa t_fin t_gotos set_cells set_rr set_sa set_fin set_sr set_gotos].
         -- intros b. unfold cell_of, upd. rewrite Haccs, Hreds. destruct (N.eqb_spec b a) as [E|E].
            ++ subst b. rewrite Eacc, N.eqb_refl, Emin. reflexivity.
            ++ destruct (N.eqb_spec a b) as [E'|E']; [congruence|]. rewrite app_nil_r.
